@@ -40,7 +40,7 @@ OPS = ["Ball", "Box", "Sphere", "Translation", "Rotation", "TranslationRotation"
 def case_st(draw):
     n = draw(st.integers(1, 10))
     labels = draw(st.lists(st.integers(-3, 6), min_size=n, max_size=n))
-    comp = draw(st.sampled_from(["single", "single", "mul", "add", "mixed"]))
+    comp = draw(st.sampled_from(["single", "single", "mul", "add", "mixed", "radd", "radd_same"]))
     return {
         "pos": [[draw(fl(0.5, 7.5)) for _ in range(3)] for _ in range(n)],
         "labels": labels,
@@ -69,8 +69,9 @@ def make_op(name, size, rec):
 
     class Recorder(BaseOperation):
         def calculate(self, context):
+            seen = context.atoms.positions.copy()
             r = np.asarray(inner.calculate(context), dtype=float)
-            rec.append((np.array(context._moving_indices).copy(), r.copy()))
+            rec.append((np.array(context._moving_indices).copy(), r.copy(), seen))
             return r
 
     return Recorder()
@@ -88,10 +89,15 @@ def run_case(case):
     veto = list(case["veto"])
     calls = {"n": 0}
 
+    accepted_attempts = []  # moving indices of every attempt the geometric check let through
+
     def check_move(*_a, **_k):
         i = calls["n"]
         calls["n"] += 1
-        return not (i < len(veto) and veto[i])
+        ok = not (i < len(veto) and veto[i])
+        if ok and rec:
+            accepted_attempts.append(rec[-1][0].copy())
+        return ok
 
     def mk(opname):
         m = DisplacementMove(labels.copy(), make_op(opname, case["size"], rec))
@@ -110,8 +116,12 @@ def run_case(case):
             move = move + mk(case["op2"])
         if case["n"] == 1:
             move = base * 1
-    else:
+    elif case["comp"] == "mixed":
         move = (base * max(1, case["n"] // 2)) + (mk(case["op2"]) * max(1, case["n"] - case["n"] // 2))
+    elif case["comp"] == "radd":
+        move = base + (mk(case["op2"]) * case["n"])  # a single move on the left of a composite
+    else:
+        move = base + (base * case["n"])
     eligible = sorted(set(int(l) for l in labels if l >= 0))
     pre = None
     if case["preselect"] is not None and eligible:
@@ -148,6 +158,14 @@ def run_case(case):
         if result or changed:
             return viol("no-eligible-not-failure", f"no eligible particle, but move returned {result!r} and rows {changed} changed")
         return out
+    if case["comp"] != "single":
+        # independent of the move's own bookkeeping: every attempt that passed the geometric check displaced the
+        # particle it was computed for; no particle may be among them twice
+        moved = [int(labels[a[0]]) for a in accepted_attempts if len(a)]
+        if len(moved) != len(set(moved)):
+            return viol("particle-moved-twice", f"particles with labels {moved} were displaced in one call of a composite of displacement moves ({type(move).__name__})")
+        if not isinstance(move, CompositeDisplacementMove):
+            return viol("composite-type", f"a composite built from displacement moves only is a {type(move).__name__}, not the displacement composite (no exclusion of already displaced particles, no count)")
     if isinstance(move, CompositeDisplacementMove):
         dl = list(move.displaced_labels)
         real = [int(x) for x in dl if x is not None]
@@ -188,7 +206,10 @@ def run_case(case):
     rows = [int(i) for i in np.flatnonzero(labels == int(sel))]
     if not set(changed) <= set(rows):
         return viol("other-atoms-moved", f"selected label {sel} (rows {rows}) but rows {changed} changed")
-    idx, vec = rec[-1]
+    for k_att, (_i, _v, seen) in enumerate(rec):
+        if not np.array_equal(seen, before):
+            return viol("attempt-not-from-original-positions", f"attempt {k_att} was computed while rows {sorted(int(i) for i in np.flatnonzero(np.any(seen != before, axis=1)))} still carried the positions of an earlier, vetoed attempt")
+    idx, vec, _seen = rec[-1]
     if sorted(idx.tolist()) != rows:
         return viol("moving-indices", f"operation saw moving indices {idx.tolist()}, selected label {sel} has rows {rows}")
     expect = before.copy()
@@ -197,6 +218,11 @@ def run_case(case):
     expect = before + tr
     if not np.array_equal(after, expect):
         return viol("not-operation-result", f"selected rows did not move by the operation's result (max deviation {np.abs(after - expect).max():.3e})")
+    if case["op"] in ("Rotation", "Translation", "TranslationRotation") and len(rows) > 1:
+        d0 = np.linalg.norm(before[rows][:, None] - before[rows][None], axis=-1)
+        d1 = np.linalg.norm(after[rows][:, None] - after[rows][None], axis=-1)
+        if np.abs(d0 - d1).max() > 1e-9:
+            return viol("group-deformed", f"label {sel} rows {rows}: a rigid operation changed the group's internal distances by {np.abs(d0 - d1).max():.3e}")
     if case["op"] not in ("Rotation", "TranslationRotation") and set(changed) != set(rows):
         return viol("selected-atoms-not-moved", f"label {sel} rows {rows} but rows {changed} changed")
     return out
@@ -285,7 +311,7 @@ def run_seq(case):
                 if changed != rows:
                     return {"labels": labs, "nontrivial": True, "violation": {"kind": "seq:wrong-atoms-moved", "detail": f"{desc}: selected label {sel} has atoms {rows} (harness labelling {model}) but atoms {changed} moved"}}
                 if len(rec) > n_rec:
-                    idx, vec = rec[-1]
+                    idx, vec, _seen = rec[-1]
                     tr = np.zeros_like(before)
                     tr[idx] = vec
                     if not np.array_equal(after, before + tr):
